@@ -9,6 +9,7 @@ the stream mapping of rip-kernel's EventKind, re-extracted from the source on ev
 import Rip.Lemmas.Wire
 import Rip.Driver.C03
 import Rip.Gen.EffectOrder
+import Rip.Gen.LogEffects
 namespace Rip.Props.C03
 open Rip.Wire
 
@@ -89,5 +90,12 @@ theorem gen_appends_store_before_publish :
     [10, 11, 12, 13, 14, 15, 16, 17, 18, 19, 20].all (fun id =>
       (orderOf id).filter (fun e => e == .logAppend || e == .cacheAppend || e == .publish)
         == [.logAppend, .cacheAppend, .publish]) = true := by decide
+
+/-- **obligation over the regenerated source**: `EventLog::append` writes the body, the newline and
+the flush unconditionally — for every frame kind. (A frame that is handed to subscribers while its
+bytes wait in the writer's buffer for some later frame's flush is not reproduced by a replay from
+disk, and is lost by a crash although its append had returned.) -/
+theorem gen_log_append_writes_unconditionally :
+    Rip.Gen.LogEffects.appendWrites = 3 ∧ Rip.Gen.LogEffects.appendWritesUnderACondition = 0 := by decide
 
 end Rip.Props.C03
